@@ -20,11 +20,11 @@ KINDS = ("boxcar", "gaussian", "lorentzian")
 
 
 def REQUIRED(tier):
-    return ["responses_compared", "argmax_checks", "invariance_checks", "boxcar_recoveries", "kind:boxcar", "kind:gaussian", "kind:lorentzian", "len:not_fft_good"]
+    return ["responses_compared", "argmax_checks", "invariance_checks", "boxcar_recoveries", "kind:boxcar", "kind:gaussian", "kind:lorentzian", "len:not_fft_good", "pulse:wraps_around_end", "kernel_direct_unsorted_bank"]
 
 
 def cases(tier, seed):
-    n = 60 if tier == "quick" else 3000
+    n = 120 if tier == "quick" else 3000
     for i in range(n):
         yield {"kind": "conv", "seed": int(seed) * 100003 + i}
     for i in range(max(8, n // 6)):
@@ -73,8 +73,14 @@ def run_case(case, ctx):
     x = rng.normal(size=n).astype(np.float32)
     pos = int(rng.choice([0, 1, n // 3, n - 3, int(rng.integers(0, n))]))
     w = int(rng.integers(1, max(2, nbmax)))
-    x[pos : pos + w] += float(rng.uniform(3, 20))
-    one = dict(case, params={"n": n, "kind": kind, "nbins_max": nbmax, "spacing": spacing, "pos": pos, "w": w})
+    wrap = bool(rng.random() < 0.35)
+    if wrap:   # a pulse that straddles the end of the (periodic) profile
+        pos = n - int(rng.integers(1, max(2, w + 1)))
+        x[(pos + np.arange(w)) % n] += float(rng.uniform(6, 20))
+        ctx.count("pulse:wraps_around_end")
+    else:
+        x[pos : pos + w] += float(rng.uniform(3, 20))
+    one = dict(case, params={"n": n, "kind": kind, "nbins_max": nbmax, "spacing": spacing, "pos": pos, "w": w, "wrap": wrap})
     ctx.evaluated()
     ctx.count(f"kind:{kind}")
     L = _good(n)
@@ -122,6 +128,29 @@ def run_case(case, ctx):
         if d > 3e-3 * max(1.0, np.abs(convs).max()) * (1 + abs(b) / 100):
             ctx.violation(f"affine-invariance:{kind}", f"convs change by {d:.3e} under x -> {a}*x+{b}", one)
             break
+    # the kernel itself on a bank in arbitrary order (mixed kinds, descending widths): each row must still be its own template's response
+    from numba import typed
+
+    from sigpyproc.core import kernels
+    from sigpyproc.core.filters import Template
+
+    pool = [Template.gen_boxcar(int(wd)) for wd in rng.integers(1, max(2, nbmax), size=3)]
+    pool += [Template.gen_gaussian(float(rng.uniform(1, max(1.5, nbmax / 4))))]
+    if n > 8 * nbmax:
+        pool += [Template.gen_lorentzian(float(rng.uniform(1, max(1.5, nbmax / 4))))]
+    pool = [t for t in pool if t.data.size <= n]
+    order = rng.permutation(len(pool))
+    pool = [pool[i] for i in order]
+    zs = np.asarray(mf.zscores.data, dtype=np.float32)
+    got2 = np.asarray(kernels.convolve_templates(zs, typed.List([np.asarray(t.data, dtype=np.float32) if kind == "x" else t.data.astype(zs.dtype) for t in pool]),
+                                                 typed.List([int(t.ref_bin) for t in pool])), dtype=np.float64)
+    want2 = oracle_convs(z, [(np.asarray(t.data, dtype=np.float32).astype(np.float64), int(t.ref_bin)) for t in pool], L)
+    ctx.count("kernel_direct_unsorted_bank")
+    ctx.count("responses_compared", int(want2.size))
+    if got2.shape != want2.shape or np.abs(got2 - want2).max() > tol:
+        k2 = int(np.argmax(np.abs(got2 - want2).max(axis=1)))
+        ctx.violation("response-values:kernel-direct:unsorted-bank", f"convolve_templates row {k2} (template sizes {[int(t.data.size) for t in pool]}) differs from its own template's inner products by {np.abs(got2 - want2).max():.3e}", one)
+        return
     if len(bank) >= 2:
         ctx.nontrivial_case(one)
     if ctx.evaluations % 10 == 1:
